@@ -220,8 +220,7 @@ def rule_fr(ctx):
              for n in A.walk_local(sl) if isinstance(n, ast.Assign)
              and isinstance(n.value, ast.Subscript) and isinstance(n.value.value, ast.Call))
     aliasing = [n for n in A.walk_local(sl) if isinstance(n, ast.Assign) and any(A.is_self_attr(t, 'slice') for t in n.targets)
-                and (isinstance(n.value, (ast.Name, ast.Attribute)) or (
-                    isinstance(n.value, ast.Call) and (A.dotted(n.value.func) or '').endswith('asarray')))]
+                and flow.aliases_caller_object(n.value, sl)]
     ok = ok and not aliasing
     rep.ob('FR', 'core.SliceDataset.__init__::reindexes-into-a-new-array', ok, sl,
            '' if ok else 'the slice must be re-derived through np.arange(len)[selection] so that it does not alias the '
